@@ -3,6 +3,7 @@ import P0f.Lemmas.ImpFlags
 import P0f.Lemmas.OptEncode
 import P0f.Model.Wire
 import P0f.Model.ImpExtract
+import P0f.Props.C08RoundTrip
 /-
   C05 — the packet `impersonate_tcp` returns is fingerprinted as the requested signature.
 
@@ -35,13 +36,19 @@ structure Admissible (b : Base) : Prop where
 def layoutLen (l : List Nat) : Nat :=
   (l.map fun k => if k = 1 then 1 else if k = 2 then 4 else if k = 3 then 3 else if k = 4 then 2 else 10).sum
 
-/-- signatures the theorem covers: plain option layouts (nop / mss / ws / sok / ts) filling a multiple of four
-    bytes, and a quirk set that some packet of this shape can have -/
+/-- the layout up to (not including) an EOL entry -/
+def bodyLayout (s : Sig) : List Nat := s.layout.takeWhile (· != 0)
+/-- does the layout contain an EOL entry -/
+def endsEol (s : Sig) : Bool := s.layout.contains 0
+
+/-- signatures the theorem covers: option layouts of nop / mss / ws / sok / ts, optionally closed by `eol+n`, filling a
+    multiple of four bytes, and a quirk set that some packet of this shape can have -/
 structure Supported (s : Sig) (b : Base) : Prop where
   version : s.ipVer = none ∨ s.ipVer = some b.ipVer
-  layoutPlain : ∀ k ∈ s.layout, k = 1 ∨ k = 2 ∨ k = 3 ∨ k = 4 ∨ k = 8
-  aligned : layoutLen s.layout % 4 = 0
-  eolPad0 : s.eolPad = 0
+  layoutShape : s.layout = bodyLayout s ++ (if endsEol s then [0] else [])
+  layoutPlain : ∀ k ∈ bodyLayout s, k = 1 ∨ k = 2 ∨ k = 3 ∨ k = 4 ∨ k = 8
+  aligned : (layoutLen (bodyLayout s) + (if endsEol s then 1 + s.eolPad else 0)) % 4 = 0
+  eolPad0 : endsEol s = false → s.eolPad = 0
   olenV : (b.ipVer = 6 → s.olen = 0) ∧ s.olen % 4 = 0
   ttlOk : 1 ≤ s.ttl ∧ s.ttl ≤ 255
   -- values the signature fixes fit their fields
@@ -53,7 +60,7 @@ structure Supported (s : Sig) (b : Base) : Prop where
     s.wtype ≠ .mtu
   -- quirks some packet of this shape and version can have
   noBad : s.quirks .bad = false
-  noEolNz : s.quirks .eolNz = false
+  eolNzCoherent : s.quirks .eolNz = true → endsEol s = true ∧ 0 < s.eolPad
   idCoherent : (s.quirks .nzId = true → s.quirks .df = true) ∧ (s.quirks .zeroId = true → s.quirks .df = false)
   ackCoherent : ¬ (s.quirks .nzAck = true ∧ s.quirks .zeroAck = true)
   urgCoherent : ¬ (s.quirks .nzUrg = true ∧ s.quirks .urg = true)
@@ -551,53 +558,185 @@ theorem plain_option_facts (s : Sig) (b : Base) (up : Option Int) (hsup : Suppor
         | false => rfl
         | true => exact absurd (hsup.ts2Coherent hq).2 hsyn
 
+/-! ### layouts closed by an EOL entry -/
+
+theorem mem_bodyLayout (s : Sig) (hshape : s.layout = bodyLayout s ++ (if endsEol s then [0] else [])) (k : Nat)
+    (hk : k ≠ 0) : k ∈ s.layout ↔ k ∈ bodyLayout s := by
+  constructor
+  · intro h
+    rw [hshape] at h
+    rw [List.mem_append] at h
+    rcases h with h | h
+    · exact h
+    · split at h
+      · simp at h; exact absurd h hk
+      · simp at h
+  · intro h
+    exact List.takeWhile_subset _ h
+
+theorem impOption_snd (s : Sig) (b : Base) (up : Option Int) (k : Nat) (c : Nat × Nat) (hk : k ≠ 0) :
+    (impOption s b up k c).2 = false := by
+  unfold impOption
+  have h0 : (k == 0) = false := by simpa using hk
+  simp only [h0]
+  repeat' split
+  all_goals first | rfl | simp_all
+
+theorem impOptionsGo_append (s : Sig) (b : Base) (up : Option Int) (A t : List Nat) (cs : List (Nat × Nat))
+    (hA : ∀ k ∈ A, k ≠ 0) :
+    impOptionsGo s b up (A ++ t) cs = impOptionsGo s b up A cs ++ impOptionsGo s b up t (cs.drop A.length) := by
+  induction A generalizing cs with
+  | nil => simp [impOptionsGo]
+  | cons k ks ih =>
+    have hk := impOption_snd s b up k (cs.headD (0, 0)) (hA k (by simp))
+    simp only [List.cons_append, impOptionsGo, hk, Bool.false_eq_true, ↓reduceIte, List.append_assoc]
+    rw [ih cs.tail (fun x hx => hA x (by simp [hx]))]
+    simp [List.drop_succ_cons, List.tail_drop]
+
+theorem optChoicesOkGo_append_left (s : Sig) (b : Base) (up : Option Int) (A t : List Nat) (cs : List (Nat × Nat))
+    (hA : ∀ k ∈ A, k ≠ 0) (h : optChoicesOkGo s b up (A ++ t) cs = true) : optChoicesOkGo s b up A cs = true := by
+  induction A generalizing cs with
+  | nil => simp [optChoicesOkGo]
+  | cons k ks ih =>
+    simp only [List.cons_append, optChoicesOkGo, Bool.and_eq_true, Bool.or_eq_true, beq_iff_eq] at h ⊢
+    obtain ⟨h1, h2⟩ := h
+    refine ⟨h1, ?_⟩
+    rcases h2 with h2 | h2
+    · exact absurd h2 (hA k (by simp))
+    · exact Or.inr (ih cs.tail (fun x hx => hA x (by simp [hx])) h2)
+
+/-- the options before the EOL entry, and the EOL entry with its padding -/
+def bodyOpts (s : Sig) (b : Base) (up : Option Int) (c : Choices) : List SOpt :=
+  impOptionsGo s b up (bodyLayout s) c.opt
+
+def tailOpts (s : Sig) : List SOpt :=
+  if endsEol s then .eol :: List.replicate s.eolPad (if s.quirks .eolNz then .nop else .eol) else []
+
+/-- what the option walk does at the end of the options before EOL -/
+def finishOpts (s : Sig) (st : Opts) : Opts :=
+  if endsEol s then
+    ((st.pushKind 0).setEolPad s.eolPad).addQuirkIf (s.quirks .eolNz && decide (0 < s.eolPad)) .eolNz
+  else st
+
+theorem bodyLayout_ne_zero (s : Sig) : ∀ k ∈ bodyLayout s, k ≠ 0 := by
+  intro k hk
+  have := mem_takeWhile_pred hk
+  simpa using this
+
 /-! ### the output packet for a supported signature -/
 
 /-- everything the final argument needs to know about one run -/
 structure RunFacts (s : Sig) (b : Base) (hops : Int) (mtu : Nat) (up : Option Int) (c : Choices) (o : OutPkt) : Prop where
   run : impTcp s b hops mtu up c = .ok o
-  optsEq : o.opts = impOptionsGo s b up s.layout c.opt
-  kinds : (impOptionsGo s b up s.layout c.opt).map SOpt.kind = s.layout
+  kinds : (bodyOpts s b up c).map SOpt.kind = bodyLayout s
   parsed : ∀ isSyn, parseOpts (encodeOpts o.opts) isSyn =
-    (impOptionsGo s b up s.layout c.opt).foldl (fun st x => stepOpt isSyn x st) Opts.init
-  facts : ∀ x ∈ impOptionsGo s b up s.layout c.opt, ∃ k c', k ∈ s.layout ∧ impOption s b up k c' = ([x], false) ∧
+    finishOpts s ((bodyOpts s b up c).foldl (fun st x => stepOpt isSyn x st) Opts.init)
+  facts : ∀ x ∈ bodyOpts s b up c, ∃ k c', k ∈ bodyLayout s ∧ impOption s b up k c' = ([x], false) ∧
     optChoiceOk s b up k c' = true
-  noEol : ∀ x ∈ impOptionsGo s b up s.layout c.opt, x ≠ .eol
+  noEol : ∀ x ∈ bodyOpts s b up c, x ≠ .eol
   window : (s.wtype = .normal → o.window = s.wsize) ∧ (s.wtype = .mod → o.window = s.wsize * c.winMul) ∧
-    (s.wtype = .mss → o.window = lastMssOf (impOptionsGo s b up s.layout c.opt) 0 * s.wsize ∧
-      ∃ v, SOpt.mss v ∈ impOptionsGo s b up s.layout c.opt) ∧
+    (s.wtype = .mss → o.window = lastMssOf (bodyOpts s b up c) 0 * s.wsize ∧
+      ∃ v, SOpt.mss v ∈ bodyOpts s b up c) ∧
     (s.wtype = .any → o.window = b.window)
+
+theorem lastMssOf_append_nomss (l t : List SOpt) (d : Nat) (ht : t.any SOpt.isMss = false) :
+    lastMssOf (l ++ t) d = lastMssOf l d := by
+  unfold lastMssOf
+  rw [List.foldl_append]
+  exact lastMssOf_no_mss t _ ht
+
+theorem tailOpts_no_mss (s : Sig) : (tailOpts s).any SOpt.isMss = false := by
+  unfold tailOpts
+  split
+  · simp only [List.any_cons, SOpt.isMss, Bool.false_or]
+    rw [List.any_eq_false]
+    intro x hx
+    rw [List.mem_replicate] at hx
+    obtain ⟨_, rfl⟩ := hx
+    split <;> simp [SOpt.isMss]
+  · rfl
+
+theorem tailOpts_bytes (s : Sig) :
+    (tailOpts s).flatMap SOpt.encode =
+      if endsEol s then 0 :: List.replicate s.eolPad (if s.quirks .eolNz then 1 else 0) else [] := by
+  unfold tailOpts
+  split
+  · simp only [List.flatMap_cons, SOpt.encode, List.cons_append, List.nil_append, List.cons.injEq, true_and]
+    induction s.eolPad with
+    | zero => simp
+    | succ n ih =>
+      simp only [List.replicate_succ, List.flatMap_cons, ih]
+      split <;> simp [SOpt.encode]
+  · rfl
+
+theorem tailOpts_wireLen (s : Sig) :
+    ((tailOpts s).map SOpt.wireLen).sum = if endsEol s then 1 + s.eolPad else 0 := by
+  rw [← flatMap_encode_length, tailOpts_bytes]
+  split <;> simp <;> omega
 
 theorem run_facts (s : Sig) (b : Base) (hops : Int) (mtu : Nat) (up : Option Int) (c : Choices)
     (hsup : Supported s b) (hc : choicesOk s b up c = true) :
     ∃ o, RunFacts s b hops mtu up c o := by
-  have hokL : optChoicesOkGo s b up s.layout c.opt = true := by
+  have hokL0 : optChoicesOkGo s b up s.layout c.opt = true := by
     unfold choicesOk at hc
     simp only [Bool.and_eq_true] at hc
     exact hc.2
-  obtain ⟨i1, i2, i3, i4, i5⟩ := plain_options s b up s.layout c.opt hsup.layoutPlain hsup.mssFits hsup.scaleFits hokL
+  have hokL : optChoicesOkGo s b up (bodyLayout s) c.opt = true := by
+    rw [hsup.layoutShape] at hokL0
+    exact optChoicesOkGo_append_left s b up _ _ _ (bodyLayout_ne_zero s) hokL0
+  obtain ⟨i1, i2, i3, i4, i5⟩ := plain_options s b up (bodyLayout s) c.opt hsup.layoutPlain hsup.mssFits hsup.scaleFits hokL
+  -- the whole list: the options before EOL, then EOL and its padding
+  have hgo : impOptionsGo s b up s.layout c.opt = bodyOpts s b up c ++ tailOpts s := by
+    rw [hsup.layoutShape, impOptionsGo_append _ _ _ _ _ _ (bodyLayout_ne_zero s)]
+    unfold bodyOpts tailOpts
+    congr 1
+    cases h : endsEol s <;> simp [impOptionsGo, impOption]
+  have hlen : ((bodyOpts s b up c ++ tailOpts s).map SOpt.wireLen).sum % 4 = 0 := by
+    rw [List.map_append, List.sum_append, tailOpts_wireLen]
+    unfold bodyOpts
+    rw [i4]
+    exact hsup.aligned
   -- no stretching, no padding: the options fill a multiple of four bytes
-  have hopts : impOptions s b up c = impOptionsGo s b up s.layout c.opt := by
+  have hopts : impOptions s b up c = bodyOpts s b up c ++ tailOpts s := by
     unfold impOptions alignOptions
-    simp only [i4, hsup.aligned]
+    rw [hgo]
+    simp only [hlen]
     rfl
-  have henc : encodeOpts (impOptionsGo s b up s.layout c.opt) = (impOptionsGo s b up s.layout c.opt).flatMap SOpt.encode := by
+  have henc : encodeOpts (bodyOpts s b up c ++ tailOpts s) =
+      (bodyOpts s b up c).flatMap SOpt.encode ++ (tailOpts s).flatMap SOpt.encode := by
     unfold encodeOpts
-    simp only [flatMap_encode_length, i4, hsup.aligned]
+    simp only [flatMap_encode_length, hlen]
     simp
-  have hparsed : ∀ isSyn, parseOpts (encodeOpts (impOptionsGo s b up s.layout c.opt)) isSyn =
-      (impOptionsGo s b up s.layout c.opt).foldl (fun st x => stepOpt isSyn x st) Opts.init := by
+  have hparsed : ∀ isSyn, parseOpts (encodeOpts (bodyOpts s b up c ++ tailOpts s)) isSyn =
+      finishOpts s ((bodyOpts s b up c).foldl (fun st x => stepOpt isSyn x st) Opts.init) := by
     intro isSyn
     rw [henc]
     unfold parseOpts
-    have := parseOptsGo_encode_list isSyn _ i2 i3 [] Opts.init
-    simp only [List.append_nil] at this
-    rw [this, parseOptsGo_nil]
+    have i2' : ∀ o ∈ bodyOpts s b up c, o.WF := i2
+    have i3' : ∀ o ∈ bodyOpts s b up c, o ≠ .eol := i3
+    rw [parseOptsGo_encode_list isSyn _ i2' i3', tailOpts_bytes]
+    unfold finishOpts
+    split
+    · rw [parseOptsGo_eol]
+      congr 1
+      · simp
+      · cases hq : s.quirks .eolNz with
+        | true =>
+          cases hn : s.eolPad with
+          | zero => simp
+          | succ n => simp [List.replicate_succ]
+        | false =>
+          simp only [Bool.false_eq_true, ↓reduceIte, Bool.false_and]
+          rw [List.any_eq_false]
+          intro x hx
+          rw [List.mem_replicate] at hx
+          simp [hx.2]
+    · rw [parseOptsGo_nil]
   -- the window
   have hwin : ∃ win, impWindow s b (impOptions s b up c) mtu c = .ok win ∧
       (s.wtype = .normal → win = s.wsize) ∧ (s.wtype = .mod → win = s.wsize * c.winMul) ∧
-      (s.wtype = .mss → win = lastMssOf (impOptionsGo s b up s.layout c.opt) 0 * s.wsize ∧
-        ∃ v, SOpt.mss v ∈ impOptionsGo s b up s.layout c.opt) ∧
+      (s.wtype = .mss → win = lastMssOf (bodyOpts s b up c) 0 * s.wsize ∧
+        ∃ v, SOpt.mss v ∈ bodyOpts s b up c) ∧
       (s.wtype = .any → win = b.window) := by
     rw [hopts]
     unfold impWindow
@@ -607,27 +746,23 @@ theorem run_facts (s : Sig) (b : Base) (hops : Int) (mtu : Nat) (up : Option Int
     | any => exact ⟨_, rfl, by simp, by simp, by simp, by simp⟩
     | mtu => exact absurd hw hsup.winOk.2.2.2
     | mss =>
-      have h2 : 2 ∈ s.layout := (hsup.winOk.2.2.1 hw).2.2.1
-      obtain ⟨x, hx, hxk⟩ := mem_of_kind_mem _ 2 (by rw [i1]; exact h2)
+      have h2 : 2 ∈ bodyLayout s := (mem_bodyLayout s hsup.layoutShape 2 (by decide)).mp (hsup.winOk.2.2.1 hw).2.2.1
+      obtain ⟨x, hx, hxk⟩ := mem_of_kind_mem (bodyOpts s b up c) 2
+        (by show 2 ∈ (impOptionsGo s b up (bodyLayout s) c.opt).map SOpt.kind; rw [i1]; exact h2)
       have hxm : ∃ v, x = .mss v := by
         cases x <;> simp [SOpt.kind] at hxk
         · exact ⟨_, rfl⟩
-        · -- an unknown-kind tuple of kind 2 cannot come from a plain layout entry
-          rename_i k n
-          obtain ⟨k', c', _, hio, _⟩ := i5 _ hx
-          have hp : PlainKind k' := hsup.layoutPlain k' (by assumption)
-          obtain ⟨o', ho', _, _, _, _⟩ := impOption_plain s b up k' c' hp hsup.mssFits hsup.scaleFits (by assumption)
-          rw [hio] at ho'
-          have hxo : SOpt.raw k n = o' := (List.cons.inj (Prod.mk.inj ho').1).1
-          have hwf := i2 _ hx
+        · have hwf := i2 _ hx
           simp only [SOpt.WF] at hwf
           omega
       obtain ⟨v, rfl⟩ := hxm
-      have hany : (impOptionsGo s b up s.layout c.opt).any SOpt.isMss = true := (any_isMss_iff _).mpr ⟨v, hx⟩
-      have hl : lastMss (impOptionsGo s b up s.layout c.opt) = some (lastMssOf (impOptionsGo s b up s.layout c.opt) 0) := by
+      have hany : (bodyOpts s b up c ++ tailOpts s).any SOpt.isMss = true :=
+        (any_isMss_iff _).mpr ⟨v, List.mem_append.mpr (Or.inl hx)⟩
+      have hl : lastMss (bodyOpts s b up c ++ tailOpts s) = some (lastMssOf (bodyOpts s b up c) 0) := by
         unfold lastMss
         rw [lastMss_eq]
-        simp [hany]
+        simp only [hany, ↓reduceIte, Option.getD_none]
+        rw [lastMssOf_append_nomss _ _ _ (tailOpts_no_mss s)]
       simp only [hl]
       exact ⟨_, rfl, by simp, by simp, fun _ => ⟨rfl, v, hx⟩, by simp⟩
   obtain ⟨win, hw0, hw1, hw2, hw3, hw4⟩ := hwin
@@ -643,7 +778,7 @@ theorem run_facts (s : Sig) (b : Base) (hops : Int) (mtu : Nat) (up : Option Int
             sport := b.sport, dport := b.dport, seq := impSeq s b c, ack := impAck s b c,
             flags := impFlags s b.flags, urp := impUrp s b c,
             window := win, opts := impOptions s b up c, payload := impPayload s b c }, ?_⟩
-  refine ⟨?_, hopts, i1, ?_, i5, i3, ⟨hw1, hw2, hw3, hw4⟩⟩
+  refine ⟨?_, i1, ?_, i5, i3, ⟨hw1, hw2, hw3, hw4⟩⟩
   · unfold impTcp
     simp only [hver, Bool.false_eq_true, ↓reduceIte, hw0]
   · intro isSyn
@@ -656,12 +791,29 @@ theorem any_raises_iff (isSyn : Bool) (q : Quirk) (l : List SOpt) :
     l.any (raises isSyn q) = true ↔ ∃ x ∈ l, raises isSyn q x = true := List.any_eq_true
 
 /-- the option quirks the walk reports are exactly those the signature asks for -/
+theorem finishOpts_quirks (s : Sig) (st : Opts) (q : Quirk) :
+    (finishOpts s st).quirks q =
+      (st.quirks q || (endsEol s && s.quirks .eolNz && decide (0 < s.eolPad) && decide (q = .eolNz))) := by
+  unfold finishOpts
+  cases he : endsEol s with
+  | false => simp
+  | true =>
+    simp only [↓reduceIte, Opts.addQuirkIf, Bool.true_and]
+    split
+    · rename_i hc
+      simp only [Bool.and_eq_true, decide_eq_true_eq] at hc
+      simp [Opts.addQuirk, Opts.setEolPad, Opts.pushKind, QSet.insert, hc.1, hc.2, quirk_beq]
+    · rename_i hc
+      have : (s.quirks .eolNz && decide (0 < s.eolPad)) = false := by simpa using hc
+      simp [Opts.setEolPad, Opts.pushKind, this]
+
 theorem run_opt_quirks (s : Sig) (b : Base) (hops : Int) (mtu : Nat) (up : Option Int) (c : Choices) (o : OutPkt)
     (hadm : Admissible b) (hsup : Supported s b) (hr : RunFacts s b hops mtu up c o) :
     outIsSyn o = (impTcpType s b == F_SYN) ∧
     (∀ q, (outOpts o).quirks q =
       match q with
-      | .exws => s.quirks .exws | .zeroTs1 => s.quirks .zeroTs1 | .nzTs2 => s.quirks .nzTs2 | _ => false) := by
+      | .exws => s.quirks .exws | .zeroTs1 => s.quirks .zeroTs1 | .nzTs2 => s.quirks .nzTs2
+      | .eolNz => s.quirks .eolNz | _ => false) := by
   obtain ⟨o', ho'⟩ := impTcp_ok s b hops mtu up c o hr.run
   have hflags : o.flags = impFlags s b.flags := by rw [ho'.2]
   have F := impFlagsB_facts b.flags hadm.flagsLt (s.quirks .nzAck) (s.quirks .zeroAck) (s.quirks .nzUrg) (s.quirks .urg) (s.quirks .push)
@@ -676,18 +828,21 @@ theorem run_opt_quirks (s : Sig) (b : Base) (hops : Int) (mtu : Nat) (up : Optio
   refine ⟨hsyn, ?_⟩
   intro q
   unfold outOpts
-  rw [hr.parsed, foldl_stepOpt_quirks]
+  rw [hr.parsed, finishOpts_quirks, foldl_stepOpt_quirks]
   simp only [Opts.init, QSet.empty, Bool.false_or]
   -- facts about every option of the list
-  have hfacts : ∀ x ∈ impOptionsGo s b up s.layout c.opt, OptionFacts s b x := by
+  have hfacts : ∀ x ∈ bodyOpts s b up c, OptionFacts s b x := by
     intro x hx
     obtain ⟨k, c', _, hio, hok⟩ := hr.facts x hx
     exact plain_option_facts s b up hsup x k c' hio hok
-  have hkind : ∀ k ∈ s.layout, ∃ x ∈ impOptionsGo s b up s.layout c.opt, x.kind = k := by
-    intro k hk
-    exact mem_of_kind_mem _ k (by rw [hr.kinds]; exact hk)
+  have hkind : ∀ k ∈ s.layout, k ≠ 0 → ∃ x ∈ bodyOpts s b up c, x.kind = k := by
+    intro k hk hk0
+    exact mem_of_kind_mem _ k (by rw [hr.kinds]; exact (mem_bodyLayout s hsup.layoutShape k hk0).mp hk)
+  have hnoeol : ∀ qq : Quirk, qq ≠ .eolNz →
+      (endsEol s && s.quirks .eolNz && decide (0 < s.eolPad) && decide (qq = .eolNz)) = false := by
+    intro qq hqq; simp [hqq]
   -- options of kind 3 / 8 in a plain-layout list are ws / ts tuples
-  have hshape : ∀ x ∈ impOptionsGo s b up s.layout c.opt, (x.kind = 3 → ∃ v, x = .ws v) ∧ (x.kind = 8 → ∃ a t, x = .ts a t) := by
+  have hshape : ∀ x ∈ bodyOpts s b up c, (x.kind = 3 → ∃ v, x = .ws v) ∧ (x.kind = 8 → ∃ a t, x = .ts a t) := by
     intro x hx
     obtain ⟨k, c', hk, hio, hok⟩ := hr.facts x hx
     obtain ⟨o'', ho'', hk'', _, hwf, _⟩ := impOption_plain s b up k c' (hsup.layoutPlain k hk) hsup.mssFits hsup.scaleFits hok
@@ -704,12 +859,21 @@ theorem run_opt_quirks (s : Sig) (b : Base) (hops : Int) (mtu : Nat) (up : Optio
       · exact ⟨_, _, rfl⟩
       · simp only [SOpt.WF] at hwf; omega
   cases q with
+  | eolNz =>
+    simp only [decide_true, Bool.and_true]
+    have hnr : (bodyOpts s b up c).any (raises (outIsSyn o) .eolNz) = false := by
+      rw [List.any_eq_false]; intro x _; cases x <;> simp [raises]
+    rw [hnr, Bool.false_or]
+    cases he : s.quirks .eolNz with
+    | false => simp
+    | true => obtain ⟨h1, h2⟩ := hsup.eolNzCoherent he; simp [h1, h2]
   | exws =>
+    rw [hnoeol _ (by decide), Bool.or_false]
     simp only
     cases he : s.quirks .exws with
     | true =>
       rw [any_raises_iff]
-      obtain ⟨x, hx, hxk⟩ := hkind 3 (hsup.exwsCoherent.1 he).1
+      obtain ⟨x, hx, hxk⟩ := hkind 3 (hsup.exwsCoherent.1 he).1 (by decide)
       obtain ⟨v, rfl⟩ := (hshape x hx).1 hxk
       have := ((hfacts _ hx).2.1 v rfl).2
       exact ⟨_, hx, by simp only [raises]; rw [this, he]⟩
@@ -724,11 +888,12 @@ theorem run_opt_quirks (s : Sig) (b : Base) (hops : Int) (mtu : Nat) (up : Optio
       simp at this
       omega
   | zeroTs1 =>
+    rw [hnoeol _ (by decide), Bool.or_false]
     simp only
     cases he : s.quirks .zeroTs1 with
     | true =>
       rw [any_raises_iff]
-      obtain ⟨x, hx, hxk⟩ := hkind 8 (hsup.ts1Coherent he)
+      obtain ⟨x, hx, hxk⟩ := hkind 8 (hsup.ts1Coherent he) (by decide)
       obtain ⟨a, t, rfl⟩ := (hshape x hx).2 hxk
       have := ((hfacts _ hx).2.2 a t rfl).1
       exact ⟨_, hx, by simp only [raises]; rw [this, he]⟩
@@ -742,11 +907,12 @@ theorem run_opt_quirks (s : Sig) (b : Base) (hops : Int) (mtu : Nat) (up : Optio
       rw [he] at this
       simp [hrx] at this
   | nzTs2 =>
+    rw [hnoeol _ (by decide), Bool.or_false]
     simp only
     cases he : s.quirks .nzTs2 with
     | true =>
       rw [any_raises_iff]
-      obtain ⟨x, hx, hxk⟩ := hkind 8 (hsup.ts2Coherent he).1
+      obtain ⟨x, hx, hxk⟩ := hkind 8 (hsup.ts2Coherent he).1 (by decide)
       obtain ⟨a, t, rfl⟩ := (hshape x hx).2 hxk
       have := ((hfacts _ hx).2.2 a t rfl).2
       exact ⟨_, hx, by simp only [raises]; rw [hsyn, this, he]⟩
@@ -760,6 +926,7 @@ theorem run_opt_quirks (s : Sig) (b : Base) (hops : Int) (mtu : Nat) (up : Optio
       rw [he, ← hsyn] at this
       simp [hrx] at this
   | _ =>
+    rw [hnoeol _ (by decide), Bool.or_false]
     simp only
     rw [Bool.eq_false_iff]
     intro hany
@@ -1002,7 +1169,7 @@ theorem run_quirks (s : Sig) (b : Base) (hops : Int) (mtu : Nat) (up : Option In
     case push => simp [t6]
     case zeroTs1 => simp [outQ, hoq]
     case nzTs2 => simp [outQ, hoq]
-    case eolNz => simp [outQ, hoq, hsup.noEolNz]
+    case eolNz => simp [outQ, hoq]
     case exws => simp [outQ, hoq]
     case bad => simp [outQ, hoq, hsup.noBad]
   · obtain ⟨j1, j2, j3, j4, j5⟩ := i6 h6
@@ -1032,7 +1199,7 @@ theorem run_quirks (s : Sig) (b : Base) (hops : Int) (mtu : Nat) (up : Option In
     case push => simp [t6]
     case zeroTs1 => simp [outQ, hoq]
     case nzTs2 => simp [outQ, hoq]
-    case eolNz => simp [outQ, hoq, hsup.noEolNz]
+    case eolNz => simp [outQ, hoq]
     case exws => simp [outQ, hoq]
     case bad => simp [outQ, hoq, hsup.noBad]
 
@@ -1058,27 +1225,43 @@ theorem imp_exact_partial (s : Sig) (b : Base) (hops d : Int) (mtu : Nat) (up : 
     obtain ⟨hsynEq, hoq⟩ := run_opt_quirks s b hops mtu up c o hadm hsup hr
     obtain ⟨win, _, ho⟩ := impTcp_ok s b hops mtu up c o hr.run
     -- the option walk
-    have hfold : outOpts o = (impOptionsGo s b up s.layout c.opt).foldl (fun st x => stepOpt (outIsSyn o) x st) Opts.init := by
+    have hfold : outOpts o = finishOpts s ((bodyOpts s b up c).foldl (fun st x => stepOpt (outIsSyn o) x st) Opts.init) := by
       unfold outOpts; exact hr.parsed _
+    have hfin : ∀ st : Opts, (finishOpts s st).layout = st.layout ++ (if endsEol s then [0] else []) ∧
+        (finishOpts s st).eolPad = (if endsEol s then s.eolPad else st.eolPad) ∧
+        (finishOpts s st).mss = st.mss ∧ (finishOpts s st).ws = st.ws := by
+      intro st
+      unfold finishOpts
+      cases he : endsEol s with
+      | false => simp
+      | true =>
+        simp only [↓reduceIte, Opts.addQuirkIf]
+        split <;> simp [Opts.addQuirk, Opts.setEolPad, Opts.pushKind]
     have hlayout : (outOpts o).layout = s.layout := by
-      rw [hfold, foldl_stepOpt_layout _ _ hr.noEol, hr.kinds]; simp [Opts.init]
-    have hpad : (outOpts o).eolPad = 0 := by rw [hfold, foldl_stepOpt_eolPad]; rfl
-    have hmss : (outOpts o).mss = lastMssOf (impOptionsGo s b up s.layout c.opt) 0 := by
-      rw [hfold, foldl_stepOpt_mss']; rfl
-    have hws : (outOpts o).ws = lastWsOf (impOptionsGo s b up s.layout c.opt) 0 := by
-      rw [hfold, foldl_stepOpt_ws']; rfl
-    have hfacts : ∀ x ∈ impOptionsGo s b up s.layout c.opt, OptionFacts s b x := by
+      rw [hfold, (hfin _).1, foldl_stepOpt_layout _ _ hr.noEol, hr.kinds]
+      simp only [Opts.init, List.nil_append]
+      exact hsup.layoutShape.symm
+    have hpad : (outOpts o).eolPad = s.eolPad := by
+      rw [hfold, (hfin _).2.1, foldl_stepOpt_eolPad]
+      cases he : endsEol s with
+      | true => simp
+      | false => simp [Opts.init, hsup.eolPad0 he]
+    have hmss : (outOpts o).mss = lastMssOf (bodyOpts s b up c) 0 := by
+      rw [hfold, (hfin _).2.2.1, foldl_stepOpt_mss']; rfl
+    have hws : (outOpts o).ws = lastWsOf (bodyOpts s b up c) 0 := by
+      rw [hfold, (hfin _).2.2.2, foldl_stepOpt_ws']; rfl
+    have hfacts : ∀ x ∈ bodyOpts s b up c, OptionFacts s b x := by
       intro x hx
       obtain ⟨k, c', _, hio, hok⟩ := hr.facts x hx
       exact plain_option_facts s b up hsup x k c' hio hok
-    have hkindMem : ∀ k ∈ s.layout, ∃ x ∈ impOptionsGo s b up s.layout c.opt, x.kind = k := by
-      intro k hk
-      exact mem_of_kind_mem _ k (by rw [hr.kinds]; exact hk)
+    have hkindMem : ∀ k ∈ s.layout, k ≠ 0 → ∃ x ∈ bodyOpts s b up c, x.kind = k := by
+      intro k hk hk0
+      exact mem_of_kind_mem _ k (by rw [hr.kinds]; exact (mem_bodyLayout s hsup.layoutShape k hk0).mp hk)
     -- the fields of the packet signature
     set_option maxRecDepth 4096 in
     have kv : (extractOut o).toPSig.ipVer = b.ipVer := by rw [ho]; rfl
     have klay : (extractOut o).toPSig.layout = s.layout := hlayout
-    have kpad : (extractOut o).toPSig.eolPad = 0 := hpad
+    have kpad : (extractOut o).toPSig.eolPad = s.eolPad := hpad
     have kolen : (extractOut o).toPSig.olen = (s.olen : Int) := by
       show (if o.ipVer == 6 then (0 : Int) else ((ipOptBytes o.ipOptLen).length : Int)) = s.olen
       rw [ho]
@@ -1095,18 +1278,18 @@ theorem imp_exact_partial (s : Sig) (b : Base) (hops d : Int) (mtu : Nat) (up : 
       rw [ho]
       simp only
       exact Int.toNat_of_nonneg (by omega)
-    have kmss : (extractOut o).toPSig.mss = lastMssOf (impOptionsGo s b up s.layout c.opt) 0 := hmss
-    have kws : (extractOut o).toPSig.wscale = lastWsOf (impOptionsGo s b up s.layout c.opt) 0 := hws
+    have kmss : (extractOut o).toPSig.mss = lastMssOf (bodyOpts s b up c) 0 := hmss
+    have kws : (extractOut o).toPSig.wscale = lastWsOf (bodyOpts s b up c) 0 := hws
     have kpay : (extractOut o).toPSig.hasPayload = !o.payload.isEmpty := rfl
     have kwin : (extractOut o).toPSig.win = o.window := rfl
     -- criteria one by one
     have c_mss : ∀ m, s.mss = some m → (extractOut o).toPSig.mss = m := by
       intro m hm
       rw [kmss]
-      rcases lastMssOf_mem (impOptionsGo s b up s.layout c.opt) 0 with h | ⟨h1, h2⟩
+      rcases lastMssOf_mem (bodyOpts s b up c) 0 with h | ⟨h1, h2⟩
       · exact ((hfacts _ h).1 _ rfl).1 m hm
       · rcases hsup.mssCoherent m hm with h2' | h0
-        · obtain ⟨x, hx, hxk⟩ := hkindMem 2 h2'
+        · obtain ⟨x, hx, hxk⟩ := hkindMem 2 h2' (by decide)
           obtain ⟨k, c', hk, hio, hok⟩ := hr.facts x hx
           obtain ⟨o'', ho'', _, _, hwf, _⟩ := impOption_plain s b up k c' (hsup.layoutPlain k hk) hsup.mssFits hsup.scaleFits hok
           rw [hio] at ho''
@@ -1119,10 +1302,10 @@ theorem imp_exact_partial (s : Sig) (b : Base) (hops d : Int) (mtu : Nat) (up : 
     have c_ws : ∀ w, s.scale = some w → (extractOut o).toPSig.wscale = w := by
       intro w hw
       rw [kws]
-      rcases lastWsOf_mem (impOptionsGo s b up s.layout c.opt) 0 with h | ⟨h1, h2⟩
+      rcases lastWsOf_mem (bodyOpts s b up c) 0 with h | ⟨h1, h2⟩
       · exact ((hfacts _ h).2.1 _ rfl).1 w hw
       · rcases hsup.scaleCoherent w hw with h2' | h0
-        · obtain ⟨x, hx, hxk⟩ := hkindMem 3 h2'
+        · obtain ⟨x, hx, hxk⟩ := hkindMem 3 h2' (by decide)
           obtain ⟨k, c', hk, hio, hok⟩ := hr.facts x hx
           obtain ⟨o'', ho'', _, _, hwf, _⟩ := impOption_plain s b up k c' (hsup.layoutPlain k hk) hsup.mssFits hsup.scaleFits hok
           rw [hio] at ho''
@@ -1161,8 +1344,8 @@ theorem imp_exact_partial (s : Sig) (b : Base) (hops d : Int) (mtu : Nat) (up : 
       | mss =>
         obtain ⟨hwv, v, hv⟩ := w3 hw
         -- the last MSS of the list is one of its MSS options, hence at least 100 with window MSS*N
-        have hmem : SOpt.mss (lastMssOf (impOptionsGo s b up s.layout c.opt) 0) ∈ impOptionsGo s b up s.layout c.opt := by
-          rcases lastMssOf_mem (impOptionsGo s b up s.layout c.opt) 0 with h | ⟨_, h2⟩
+        have hmem : SOpt.mss (lastMssOf (bodyOpts s b up c) 0) ∈ bodyOpts s b up c := by
+          rcases lastMssOf_mem (bodyOpts s b up c) 0 with h | ⟨_, h2⟩
           · exact h
           · exact absurd hv (h2 v)
         obtain ⟨h100, _⟩ := ((hfacts _ hmem).1 _ rfl).2 hw
@@ -1197,7 +1380,7 @@ theorem imp_exact_partial (s : Sig) (b : Base) (hops d : Int) (mtu : Nat) (up : 
     have httl2 : ¬ ((s.ttl : Int) - (extractOut o).toPSig.ttl > d) := by
       rw [kttl]; omega
     simp only [klay, bne_self_eq_false, Bool.false_eq_true, ↓reduceIte, hver, quirkStep, hbeq, Bool.not_true,
-      kpad, hsup.eolPad0, kolen, Bool.or_self, hm, hsc, hp, c_win, httl1, httl2, decide_false, Bool.or_false]
+      kpad, kolen, Bool.or_self, hm, hsc, hp, c_win, httl1, httl2, decide_false, Bool.or_false]
     cases s.badTtl <;> simp
   · -- the distance
     obtain ⟨win, _, ho⟩ := impTcp_ok s b hops mtu up c o hr.run
@@ -1228,11 +1411,14 @@ theorem exBase_admissible : Admissible exBase := by
   decide
 
 theorem exSig_supported : Supported exSig exBase := by
-  refine { version := Or.inl rfl, layoutPlain := ?_, aligned := by decide, eolPad0 := rfl, olenV := ⟨fun _ => rfl, by decide⟩,
-           ttlOk := by decide, mssFits := ?_, scaleFits := ?_, winOk := ?_, noBad := by decide, noEolNz := by decide,
+  have hb : bodyLayout exSig = [2, 1, 3] := by decide
+  have he : endsEol exSig = false := by decide
+  refine { version := Or.inl rfl, layoutShape := by rw [hb, he]; rfl, layoutPlain := ?_, aligned := by rw [hb, he]; decide,
+           eolPad0 := fun _ => rfl, olenV := ⟨fun _ => rfl, by decide⟩,
+           ttlOk := by decide, mssFits := ?_, scaleFits := ?_, winOk := ?_, noBad := by decide, eolNzCoherent := by decide,
            idCoherent := by decide, ackCoherent := by decide, urgCoherent := by decide, famCoherent := ?_,
            exwsCoherent := ?_, mssCoherent := ?_, scaleCoherent := ?_, ts1Coherent := by decide, ts2Coherent := by decide }
-  · intro k hk; simp [exSig] at hk; rcases hk with rfl | rfl | rfl <;> simp
+  · intro k hk; rw [hb] at hk; simp at hk; rcases hk with rfl | rfl | rfl <;> simp
   · intro m hm; simp [exSig] at hm
   · intro w hw; simp [exSig] at hw; omega
   · refine ⟨by simp [exSig], by simp [exSig], ?_, by simp [exSig]⟩
@@ -1272,10 +1458,13 @@ theorem layoutLenB_eq (l : List Nat) : layoutLenB l = layoutLen l := rfl
 theorem supportedB_sound (s : Sig) (b : Base) (h : supportedB s b = true) : Supported s b := by
   unfold supportedB at h
   simp only [Bool.and_eq_true] at h
-  obtain ⟨⟨⟨⟨⟨⟨⟨⟨⟨⟨⟨⟨⟨⟨⟨⟨⟨⟨⟨⟨⟨⟨⟨⟨⟨⟨⟨a1, a2⟩, a3⟩, a4⟩, a5⟩, a6⟩, a7⟩, a8⟩, a9⟩, a10⟩, a11⟩, a12⟩, a13⟩, a14⟩, a15⟩, a16⟩, a17⟩, a18⟩, a19⟩, a20⟩, a21⟩, a22⟩, a23⟩, a24⟩, a25⟩, a26⟩, a27⟩, a28⟩ := h
-  have wt_beq : ∀ x y : WinType, (x != y) = true ↔ x ≠ y := fun x y => by simp
-  refine { version := ?_, layoutPlain := ?_, aligned := ?_, eolPad0 := ?_, olenV := ?_, ttlOk := ?_, mssFits := ?_,
-           scaleFits := ?_, winOk := ?_, noBad := ?_, noEolNz := ?_, idCoherent := ?_, ackCoherent := ?_, urgCoherent := ?_,
+  obtain ⟨⟨⟨⟨⟨⟨⟨⟨⟨⟨⟨⟨⟨⟨⟨⟨⟨⟨⟨⟨⟨⟨⟨⟨⟨⟨⟨⟨a1, a2⟩, a3⟩, a4⟩, a5⟩, a6⟩, a7⟩, a8⟩, a9⟩, a10⟩, a11⟩, a12⟩, a13⟩, a14⟩, a15⟩, a16⟩, a17⟩, a18⟩, a19⟩, a20⟩, a21⟩, a22⟩, a23⟩, a24⟩, a25⟩, a26⟩, a27⟩, a28⟩, a29⟩ := h
+  have hshape : s.layout = bodyLayout s ++ (if endsEol s then [0] else []) := by
+    have := a29
+    simp only [beq_iff_eq] at this
+    exact this
+  refine { version := ?_, layoutShape := hshape, layoutPlain := ?_, aligned := ?_, eolPad0 := ?_, olenV := ?_, ttlOk := ?_, mssFits := ?_,
+           scaleFits := ?_, winOk := ?_, noBad := ?_, eolNzCoherent := ?_, idCoherent := ?_, ackCoherent := ?_, urgCoherent := ?_,
            famCoherent := ?_, exwsCoherent := ?_, mssCoherent := ?_, scaleCoherent := ?_, ts1Coherent := ?_, ts2Coherent := ?_ }
   · cases hv : s.ipVer with
     | none => exact Or.inl rfl
@@ -1289,8 +1478,13 @@ theorem supportedB_sound (s : Sig) (b : Base) (h : supportedB s b = true) : Supp
     · exact Or.inr (Or.inr (Or.inl h))
     · exact Or.inr (Or.inr (Or.inr (Or.inl h)))
     · exact Or.inr (Or.inr (Or.inr (Or.inr h)))
-  · rw [← layoutLenB_eq]; simpa using a3
-  · simpa using a4
+  · have := a3
+    simp only [beq_iff_eq] at this
+    exact this
+  · intro he
+    have he' : s.layout.contains 0 = false := he
+    simp only [he', Bool.false_or, beq_iff_eq] at a4
+    exact a4
   · refine ⟨fun h6 => ?_, by simpa using a6⟩
     simp only [Bool.or_eq_true, bne_iff_ne, ne_eq, beq_iff_eq] at a5
     rcases a5 with h | h
@@ -1311,7 +1505,9 @@ theorem supportedB_sound (s : Sig) (b : Base) (h : supportedB s b = true) : Supp
       simpa using b4
     · simpa using a14
   · simpa using a15
-  · simpa using a16
+  · intro he
+    simp only [he, Bool.not_true, Bool.false_or, Bool.and_eq_true, decide_eq_true_eq] at a16
+    exact ⟨a16.1, a16.2⟩
   · constructor
     · intro hn; simp [hn] at a17; exact a17
     · intro hz; simp [hz] at a18; exact a18
